@@ -191,8 +191,18 @@ class Interp:
         if isinstance(c, bool):
             return self.ev(e.body if c else e.orelse, fr)
         if self.pure:
-            a = self.ev(e.body, fr)
-            b = self.ev(e.orelse, fr)
+            try:
+                a = self.ev(e.body, fr)
+            except PyExc as ex:
+                if self.ctx.provable(znot(c)):
+                    return self.ev(e.orelse, fr)
+                raise Unsupported('contract expression may raise %s' % ex.cls)
+            try:
+                b = self.ev(e.orelse, fr)
+            except PyExc as ex:
+                if self.ctx.provable(c):
+                    return a
+                raise Unsupported('contract expression may raise %s' % ex.cls)
             return self.ite(c, a, b)
         return self.ev(e.body if self.ctx.branch(c) else e.orelse, fr)
 
@@ -230,7 +240,18 @@ class Interp:
         if self.pure:
             vals = []
             for x in e.values:
-                t = self.truth(self.ev(x, fr))
+                try:
+                    t = self.truth(self.ev(x, fr))
+                except PyExc as ex:
+                    # the operand is not evaluable here: legal only if the operands before it
+                    # already decide the result on this path (short circuit)
+                    sofar = zand(*vals) if is_and else zor(*vals)
+                    decided = self.ctx.provable(znot(sofar) if is_and else sofar) if not isinstance(sofar, bool) \
+                        else (sofar is (not is_and))
+                    if decided:
+                        vals.append(not is_and)
+                        break
+                    raise Unsupported('contract expression may raise %s (line %s)' % (ex.cls, getattr(x, 'lineno', '?')))
                 if is_and and t is False:
                     vals.append(False)
                     break
@@ -295,6 +316,8 @@ class Interp:
             return self.ev(e.args[0], self.old_frame)
         if isinstance(e.func, ast.Name) and e.func.id in ('forall', 'exists') and self.pure:
             return self.quantifier(e, fr)
+        if isinstance(e.func, ast.Name) and e.func.id == 'super' and not e.args and fr.lookup('super') is _MISSING:
+            return self.make_super(fr, e)
         func = self.ev(e.func, fr) if not isinstance(e.func, ast.Attribute) else None
         args = []
         for a in e.args:
@@ -318,6 +341,20 @@ class Interp:
             obj = self.ev(e.func.value, fr)
             return self.models.call_method(self, obj, e.func.attr, args, kw, e, fr)
         return self.models.call(self, func, args, kw, e, fr)
+
+    def make_super(self, fr, node):
+        """zero-argument super() inside an inlined method"""
+        f = fr
+        while f is not None and (f.func is None or '.' not in (f.func.qualname or '')):
+            f = f.parent
+        if f is None:
+            raise Unsupported('super() outside a method')
+        clsname = f.func.qualname.split('.')[-2]
+        slf = f.env.get('self')
+        if slf is None:
+            a = f.func.node.args.args
+            slf = f.env.get(a[0].arg) if a else None
+        return SuperProxy(slf, clsname)
 
     def quantifier(self, e, fr):
         """forall(lambda i: body, lo, hi) : bounded quantifier lo <= i < hi (pure only)"""
@@ -691,6 +728,11 @@ class Interp:
             if f is None:
                 f = fr
         f.env[name] = v
+
+
+class SuperProxy:
+    def __init__(self, obj, clsname):
+        self.obj, self.clsname = obj, clsname
 
 
 class FloatDiv:
